@@ -289,6 +289,9 @@ func (r *R) DecodeList(o ListOpts) (*FileList, error) {
 		}
 		fl.Entries = append(fl.Entries, e)
 		last = e
+		if r.OnEntry != nil {
+			r.OnEntry(&e)
+		}
 	}
 	readIDs := func() ([]IDName, error) {
 		var out []IDName
